@@ -103,6 +103,9 @@ MUTANTS = [
     ("stn-read-flags-swapped", "C11", "nodes.SymbolTableNode$", "mypy/nodes.py", "        sym.module_hidden = read_bool(data)\n        sym.module_public = read_bool(data)", "        sym.module_public = read_bool(data)\n        sym.module_hidden = read_bool(data)", "violation"),
     ("stn-typeinfo-also-lazy", "C11", "nodes.SymbolTableNode", "mypy/nodes.py", "            if tag == TYPE_INFO:\n                sym._node = TypeInfo.read(data)\n            else:", "            if False:\n                sym._node = TypeInfo.read(data)\n            else:", "violation"),
     ("stn-lazy-node-keeps-unfixed", "C11", "lazy_node", "mypy/nodes.py", "                node.accept(node_fixer)\n                self.unfixed = False", "                node.accept(node_fixer)", "violation"),
+    ("conv-int16-range-check-off-by-one", "C15", "conv.CPyLong_AsInt16", "mypyc/lib-rt/int_ops.c", "    if (result > 0x7fff || result < -0x8000) {", "    if (result > 0x8000 || result < -0x8000) {", "violation"),
+    ("conv-uint8-negative-accepted", "C15", "conv.CPyLong_AsUInt8", "mypyc/lib-rt/int_ops.c", "    if (result < 0 || result >= 256) {", "    if (result >= 256) {", "violation"),
+    ("conv-int64-overflow-flag-ignored", "C15", "conv.CPyLong_AsInt64", "mypyc/lib-rt/int_ops.c", '        } else if (overflow) {\n            PyErr_SetString(PyExc_ValueError, "int too large to convert to i64");', '        } else if (overflow > 0) {\n            PyErr_SetString(PyExc_ValueError, "int too large to convert to i64");', "violation"),
     ("enabled-parent-check-dropped", "C13", "is_error_code_enabled", "mypy/errors.py", "elif error_code.sub_code_of is not None and error_code.sub_code_of in current_mod_disabled:\n            return False", "elif error_code.sub_code_of is not None and error_code.sub_code_of in current_mod_enabled:\n            return False", "violation"),
 ]
 
